@@ -47,6 +47,12 @@ pub struct OpsContext<'cxt, C: CellType> {
 }
 
 impl<C: CellType> BcInterpreter<C> {
+    /// Verification hook: the bytecode this executor actually runs.
+    #[cfg(feature = "verif")]
+    pub fn verif_bytecode(&self) -> &Program<C> {
+        &self.bytecode
+    }
+
     /// Generate, from the bytecode, the corresponding threaded code.
     fn build_threaded_code(&self, limited: bool, safe: bool) -> Vec<OpCode<C>> {
         let mut inst_offset = Vec::with_capacity(self.bytecode.insts.len() + 1);
